@@ -8,6 +8,7 @@ import (
 	"io"
 	"math/rand"
 	"os"
+	"os/exec"
 	"sort"
 	"sync"
 	"time"
@@ -100,6 +101,8 @@ type World struct {
 	cats      map[string]int // coverage counters for the evidence file
 	prop      string         // property the running check is about: panics / hangs are attributed to it
 	dead      bool           // a panic / hang happened: the process is poisoned
+	viewBin   string         // tools/view binary (C09)
+	scratch   string         // scratch file for the view tool
 }
 
 func NewWorld(out io.Writer, rng *rand.Rand, u *Universe, cbMask int) *World {
@@ -788,6 +791,47 @@ func (w *World) handOut(h *StoreH, c *gkvlite.Collection, i *gkvlite.Item) {
 }
 
 func (w *World) flushOut() { w.out.Flush() }
+
+// ViewTool runs the repository's tools/view binary (names, items <first
+// collection>) on a read-only copy of the file's image and logs whether the
+// bytes changed and which names it printed.
+func (w *World) ViewTool(f *memfile.File) {
+	if w.viewBin == "" || f == nil {
+		return
+	}
+	img := f.Bytes()
+	if len(img) == 0 {
+		return
+	}
+	os.Remove(w.scratch)
+	if err := os.WriteFile(w.scratch, img, 0444); err != nil {
+		return
+	}
+	defer func() { os.Chmod(w.scratch, 0644); os.Remove(w.scratch) }()
+	out, err := exec.Command(w.viewBin, w.scratch, "names").Output()
+	ev := Ev{"e": "ViewTool", "f": f.ID, "rc": 0, "names": []int{}, "changed": false}
+	if err != nil {
+		ev["rc"] = 1
+	}
+	ids := []int{}
+	for _, n := range w.U.Names {
+		if bytes.Contains(out, []byte(n+"\n")) {
+			ids = append(ids, w.U.NameID(n))
+		}
+	}
+	ev["names"] = ids
+	for _, n := range w.U.Names {
+		if bytes.Contains(out, []byte(n+"\n")) && !bytes.Contains([]byte(n), []byte{0}) { // argv cannot carry NUL
+			if e2 := exec.Command(w.viewBin, w.scratch, "items", n).Run(); e2 != nil {
+				ev["rc"] = 2
+			}
+			break
+		}
+	}
+	after, _ := os.ReadFile(w.scratch)
+	ev["changed"] = !bytes.Equal(after, img)
+	w.emit(ev)
+}
 
 func fatalf(format string, a ...interface{}) {
 	fmt.Fprintf(os.Stderr, format+"\n", a...)
